@@ -18,10 +18,11 @@
    client side (c07_roundtrip_resp_partial, c07_pipelined_resp_partial): status line "<proto> <code> <reason>",
    any code < 2^62 rendered in decimal, reason phrase of one or more words (the parser keeps the first word - that
    is what `meaning_resp` says, and the harness compares the code only), the same header lines and the same three
-   framings; successive responses on one connection start exactly behind one another. MISSING: chunk extensions,
-   trailers, upper-case hex digits, HTAB as optional whitespace. Those are decided on every run by the differential harness against net/http
+   framings; successive responses on one connection start exactly behind one another. Chunk extensions: c07_*_chunked_ext_partial (C07Ext.v); declared trailers and arbitrary
+   header blocks: coq/respdec/C07Trailers.v. MISSING: trailer lines out of declaration order, upper-case hex digits,
+   HTAB as optional whitespace in header lines, extensions and trailers in ONE message. Those are decided on every run by the differential harness against net/http
    (cmd/httpref), not by a theorem. That `meaning` coincides with what net/http extracts is tested, not proved. *)
-Require Import HttpParser C06Proofs C07Reqs C07Dec C07Body C07Chunk C07Msg.
+Require Import HttpParser C06Proofs C07Reqs C07Dec C07Body C07Chunk C07Msg C07Ext.
 From Coq Require Import List NArith ZArith Bool Lia.
 Import ListNotations.
 Open Scope N_scope.
@@ -191,6 +192,44 @@ Proof.
   - constructor.
 Qed.
 
+(* chunk extensions: every size line may carry whitespace and a ";"-introduced extension of arbitrary bytes (no CR),
+   the last chunk too; requests and responses (C07Ext.v) *)
+Theorem c07_request_chunked_ext_partial r cs lx p rest :
+  wf_req r -> Forall wf_chunk_x cs -> wf_ext lx -> boundary p ->
+  exists p', boundary p' /\
+    run_bytes p (rmethod r ++ [SP] ++ rtarget r ++ [SP] ++ rproto r ++ [CR; LF] ++
+                 concat (map render_hdr (rhdrs r)) ++ render_hdr te_hdr ++ [CR; LF] ++ body_x cs lx ++ rest) [] =
+    run_bytes p' rest ([EMethod (rmethod r); EURL (rtarget r); EProto (rproto r)] ++
+                       map (fun h => EHeader (canonical (hname h)) (hvalue h)) (rhdrs r) ++
+                       [EHeader k_TE s_chunked; EContentLength (-1)%Z] ++ map EBody (map fst cs) ++ [EComplete]).
+Proof. exact (c07_request_chunked_ext r cs lx p rest). Qed.
+
+Theorem c07_response_chunked_ext_partial r cs lx p rest :
+  wf_resp r -> Forall wf_chunk_x cs -> wf_ext lx -> boundaryc true p ->
+  exists p', boundaryc true p' /\
+    run_bytes p (sproto r ++ [SP] ++ dec (scode r) ++ [SP] ++ sword r ++ stail r ++ [CR; LF] ++
+                 concat (map render_hdr (shdrs r)) ++ render_hdr te_hdr ++ [CR; LF] ++ body_x cs lx ++ rest) [] =
+    run_bytes p' rest ([EProto (sproto r); EStatus (Z.of_N (scode r)) (sword r)] ++
+                       map (fun h => EHeader (canonical (hname h)) (hvalue h)) (shdrs r) ++
+                       [EHeader k_TE s_chunked; EContentLength (-1)%Z] ++ map EBody (map fst cs) ++ [EComplete]).
+Proof. exact (c07_response_chunked_ext r cs lx p rest). Qed.
+
+(* non-vacuity: "3 ;a=b\r\nabc\r\n0;last\r\n\r\n" *)
+Example c07_example_ext :
+  let cs := [([97;98;99], {| xws := [SP]; xext := Some [97;61;98] |})] in
+  let lx := {| xws := []; xext := Some [108;97;115;116] |} in
+  Forall wf_chunk_x cs /\ wf_ext lx /\
+  body_x cs lx = [51;32;59;97;61;98;13;10;97;98;99;13;10;48;59;108;97;115;116;13;10;13;10].
+Proof.
+  cbv zeta. split; [|split].
+  - constructor; [|constructor]. unfold wf_chunk_x, wf_chunk, wf_ext. cbn [fst snd xws xext length].
+    split; [split; [discriminate|unfold LIM; lia]|].
+    split; [constructor; [left; reflexivity|constructor]|].
+    unfold CR. repeat (constructor; [lia|]). constructor.
+  - unfold wf_ext. cbn [xws xext]. split; [constructor|]. unfold CR. repeat (constructor; [lia|]). constructor.
+  - vm_compute. reflexivity.
+Qed.
+
 Print Assumptions c07_roundtrip_nobody_partial.
 Print Assumptions c07_pipelined_nobody_partial.
 Print Assumptions c07_roundtrip_msg_partial.
@@ -199,3 +238,5 @@ Print Assumptions c07_decimal_roundtrip.
 Print Assumptions c07_hex_roundtrip.
 Print Assumptions c07_roundtrip_resp_partial.
 Print Assumptions c07_pipelined_resp_partial.
+Print Assumptions c07_request_chunked_ext_partial.
+Print Assumptions c07_response_chunked_ext_partial.
